@@ -12,7 +12,9 @@ of literal text and reference slots.  For RENUM new,old,inc the model computes t
   * behaviour: tag trace of the renumbered program == tag trace of the original (line numbers in
     error messages mapped), under the same step budget, key events and logical-time timer
   * 'trap' mode: the program sets ON ERROR / ON KEY / ON TIMER and STOPs, RENUM is typed, execution
-    goes on with GOTO: the handlers (before / inside the renumbered range) must still be reached
+    goes on with GOTO: the handlers (before / inside the renumbered range) must still be reached;
+    in a share of the programs the event trap is only DEFINED at the STOP (event never ON, or ON and OFF
+    again) and the first line after the STOP switches it ON before the event is delivered
 An internal exception (D3: KeyError for a trap line below `old`) is reported under its harness key.
 """
 import random
@@ -45,7 +47,7 @@ META = {
     'assumptions': ['old->new map per the GW-BASIC manual: lines >= old get new, new+inc, ...; impossible if it would not stay above the lines below old or exceeds 65529'],
     'require_counters': {'any': ['renum_accepted', 'renum_rejected', 'rejected_untouched_checked', 'missing_reported_seen',
                                  'trap_error_handler_reached', 'trap_event_handler_reached', 'trap_before_range_seen',
-                                 'trap_inside_range_seen', 'behaviour_compared', 'image_compared',
+                                 'trap_inside_range_seen', 'trap_defined_while_off_handler_reached_after_renum', 'behaviour_compared', 'image_compared',
                                  'ref_goto', 'ref_gosub', 'ref_then', 'ref_then_else', 'ref_on_goto', 'ref_on_gosub', 'ref_restore',
                                  'ref_run', 'ref_resume', 'ref_erl_eq', 'ref_on_error', 'ref_on_key', 'ref_on_timer']},
     'timeout': {'quick': 900, 'thorough': 7200},
@@ -271,6 +273,8 @@ def run_case(res, case, inv):
                         res.count('trap_error_handler_reached')
                     if re.search(rb'k\d+;', trace1):
                         res.count('trap_event_handler_reached')
+                        if not code and any(re.search(rb'(KEY\(\d+\)|TIMER) ON:C=C\+1', l) for l in text):
+                            res.count('trap_defined_while_off_handler_reached_after_renum')
                 if trace1 != exp_trace:
                     # name the mechanism: which kind of tag sequence diverges first
                     i = 0
@@ -343,6 +347,18 @@ def directed_cases():
         prog = {'lines': lines, 'cont': 60, 'missing': [], 'handlers': h}
         for args in ([100, 40, None], [100, 60, 10], [100, 20, None], [None, None, None], [15, 40, None], [100, 10, 1]):
             cases.append({'prog': prog, 'args': args, 'mode': 'trap', 'budget': 300})
+    # traps DEFINED while their event is OFF at RENUM time (never switched on / switched on and off again); the line after the STOP
+    # switches the event ON, then the event is delivered: the handler must be found at its new number
+    for what, define, on in (('key', [b'ON KEY(1) GOSUB ', R(20)], b'KEY(1) ON'),
+                             ('key', [b'ON KEY(1) GOSUB ', R(20), b':KEY(1) ON:KEY(1) OFF'], b'KEY(1) ON'),
+                             ('timer', [b'ON TIMER(1) GOSUB ', R(20)], b'TIMER ON'),
+                             ('timer', [b'ON TIMER(1) GOSUB ', R(20), b':TIMER ON:TIMER OFF'], b'TIMER ON')):
+        h = {'key': [1, 20]} if what == 'key' else {'timer': 20}
+        lines = [L(10, b'GOTO ', R(40)), L(20, b'PRINT "k1;";:RETURN'), L(40, *define), L(50, b'STOP'),
+                 L(60, on + b':C=C+1:PRINT "t1;";'), L(70, b'FOR I=1 TO 30:PRINT "t2;";:NEXT'), L(80, b'PRINT "end;":END')]
+        prog = {'lines': lines, 'cont': 60, 'missing': [], 'handlers': h}
+        for args in ([None, None, None], [100, 20, None], [100, 40, None], [1000, None, 7], [15, 40, None]):
+            cases.append({'prog': prog, 'args': args, 'mode': 'trap', 'budget': 300, 'late': True})
     # one line per reference kind, RENUM of the whole program and of a tail
     lines = [
         L(10, b'C=C+1:PRINT "t1;";:GOTO ', R(30)),
